@@ -147,3 +147,139 @@ def value_impl(tr, recv, v, env):
     if recv[0] == 'field':
         return None
     return None
+
+
+# ---------------------------------------------------------------- higher-level functions
+impl_alias = {('Header', 'Flags'): 'AvpFlags'}
+var_impl = {'flags': 'Flags', 'header': 'Header'}
+field_impl = {'flags': 'AvpFlags'}
+avp_variants = {n: None for n in K16 + K32 + K32BM + KBYTES + KSTR + KFIX + [
+    'ResultCode', 'ProtocolVersion', 'TieBreaker', 'Q931CauseCode', 'ProxyAuthenId', 'CallErrors', 'Accm',
+    'SequencingRequired', 'Hidden']}
+avp_variants['MessageType'] = '(AMessageType %s)'
+avp_variants['ProxyAuthenType'] = '(AProxyAuthenType %s)'
+ctor_fns[('Message', 'Data')] = 'Data %s'
+ctor_fns[('Message', 'Control')] = 'Control %s'
+for _e in ('ValidateReserved', 'ValidateVersion', 'ValidateUnused'):
+    enum_values[(_e, 'Yes')] = 'true'
+    enum_values[(_e, 'No')] = 'false'
+rec_text['ValidationOptions'] = lambda tr, r: ('{| v_reserved := %s; v_version := %s; v_unused := %s |}'
+                                               % tuple(tr.text(r.fields[f]) for f in ('reserved', 'version', 'unused')))
+
+
+def value_impl(tr, recv, v, env):
+    if recv[0] == 'path' and len(recv[1]) == 1:
+        t = env.get('__ty', {}).get(recv[1][0])
+        if t:
+            t = t.split('<')[0].strip()
+            if t in tr.c['structs'] or any(k[0] == t for k in tr.c['fns']):
+                return impl_alias.get((env.get('__impl'), t), t)
+        return var_impl.get(recv[1][0])
+    if recv[0] == 'field':
+        return field_impl.get(recv[2])
+    return None
+
+
+def _opaque(model_text_of_args, sub_ok=True):
+    """call hook: the callee has its own tie; here it is the Model's program, sequenced with bind
+    (or run on a sub-reader with Sub when the reader argument is a sub-reader)"""
+    def hook(tr, args, env, k):
+        def go(vs, env2):
+            subs = [v for v in vs if isinstance(v, Ctor) and v.name == 'SubReader']
+            pure = [v for v in vs if not (isinstance(v, Ctor) and v.name in ('SubReader', 'Reader'))]
+            prog = model_text_of_args(tr, pure)
+            r = tr.g.fresh('r')
+            body = k(Pure(r), env2)
+            if subs:
+                return 'Sub %s %s (fun %s => %s)' % (paren(tr.text(subs[0].args[0])), paren(prog), r, body)
+            if body == 'Ret %s' % r:
+                return prog          # right identity of bind: a tail call
+            return 'bind %s (fun %s => %s)' % (paren(prog), r, body)
+        return tr.evs(args, env, go)
+    return hook
+
+
+call_hooks[('Header', 'try_read')] = _opaque(lambda tr, a: 'header_read')
+call_hooks[('Flags', 'read')] = _opaque(lambda tr, a: 'flags_read')
+call_hooks[(None, 'decode_avp')] = _opaque(lambda tr, a: 'decode_avp %s' % paren(tr.text(a[0])))
+call_hooks[('AVP', 'try_read_greedy')] = _opaque(lambda tr, a: 'avps_read')
+call_hooks[('DataMessage', 'try_read')] = _opaque(lambda tr, a: 'data_read %s' % paren(tr.text(a[0])))
+call_hooks[('ControlMessage', 'try_read')] = _opaque(lambda tr, a: 'ctrl_read %s %s' % (paren(tr.text(a[0])), paren(tr.text(a[1]))))
+call_hooks[('Message', 'try_read_validate')] = _opaque(lambda tr, a: 'msg_read %s' % paren(tr.text(a[0])))
+
+
+def _closure_fn_name(clo, meth_map):
+    """|x| x.m()  ->  the model function for m (eta-reduced)"""
+    if clo[0] == 'closure' and len(clo[1]) == 1 and clo[1][0][0] == 'pvar':
+        b = clo[2]
+        if b[0] == 'mcall' and b[1] == ('path', [clo[1][0][1]]) and not b[3] and b[2] in meth_map:
+            return meth_map[b[2]]
+    return None
+
+
+def _hook_any(tr, recv, args, env, k):
+    f = _closure_fn_name(args[0], {'is_err': 'is_err'}) if len(args) == 1 else None
+    if f is None:
+        raise Unsupported('any() with an unrecognised closure')
+    return tr.ev(recv, env, lambda v, env2: k(Pure('(existsb %s %s)' % (f, paren(tr.text(v)))), env2))
+
+
+def _hook_collect(tr, recv, args, env, k):
+    if recv[0] == 'mcall' and recv[2] == 'filter_map' and len(recv[3]) == 1:
+        f = _closure_fn_name(recv[3][0], {'err': 'errs_of', 'ok': 'oks_of'})
+        if f is not None:
+            return tr.ev(recv[1], env, lambda v, env2: k(Pure('(%s %s)' % (f, paren(tr.text(v)))), env2))
+    raise Unsupported('collect() of an unrecognised iterator chain')
+
+
+def _hook_push(tr, recv, args, env, k):
+    if recv != ('path', ['result']) or '__pending' not in env:
+        raise Unsupported('push outside the result-list loop schema')
+    return tr.ev(args[0], env, lambda v, env2: k(Ctor('Unit'), dict(env2, __pending=env2['__pending'] + [v])))
+
+
+def _hook_all(tr, recv, args, env, k):
+    clo = args[0] if len(args) == 1 else None
+    if not clo or clo[0] != 'closure' or len(clo[1]) != 1 or clo[1][0][0] != 'pvar':
+        raise Unsupported('all() with an unrecognised closure')
+    x = tr.g.fresh('i')
+    def f(v, env2):
+        body = tr.pure_expr(clo[2], dict(env2, **{clo[1][0][1]: Pure(x)}), env2.get('__impl'))
+        return k(Pure('(forallb (fun %s => %s) %s)' % (x, tr.text(body), paren(tr.text(v)))), env2)
+    return tr.ev(recv, env, f)
+
+
+method_hooks.update({'all': _hook_all, 'any': _hook_any, 'collect': _hook_collect, 'push': _hook_push})
+
+
+def loop_hook(tr, e, env, k):
+    """while let Some(x) = F(reader) { body }  with the `result.push(..); continue/break` schema:
+    one unfolding of the model's fuelled recursion; `__rec` is the name of the recursive call"""
+    _, pat, scrut, body = e
+    if '__rec' not in env or pat[0] != 'pctor' or pat[1][-1] != 'Some' or len(pat[2]) != 1 or pat[2][0][0] != 'pvar':
+        raise Unsupported('while-let loop outside the supported schema')
+    var = pat[2][0][1]
+
+    def lst(vs, tail):
+        t = tail
+        for v in reversed(vs):
+            t = '(%s :: %s)' % (tr.text(v), t)
+        return t
+
+    def cont(env2):
+        r = tr.g.fresh('rest')
+        return 'bind %s (fun %s => Ret %s)' % (env['__rec'], r, lst(env2['__pending'], r))
+
+    def brk(env2):
+        return 'Ret %s' % lst(env2['__pending'], '[]')
+
+    def after_scrut(v, env2):
+        o = tr.as_option(v) if isinstance(v, Pure) else v
+        def leaf(x):
+            if x.name == 'None':
+                return 'Ret []'
+            env3 = dict(env2, **{var: x.args[0]})
+            env3.update(__pending=[], __continue=cont, __break=brk)
+            return tr.block(body, env3, lambda v2, env4: cont(env4))
+        return tr.on(o, leaf)
+    return tr.ev(scrut, env, after_scrut)
